@@ -262,6 +262,24 @@ def run(chk: core.Check):
         cases.append({"id": cid, "lib": project(lib, M), "fmt": f, "out": out, "raised": raised, "may_raise": False,
                       "fmt_unchanged": fmt_state(fmt) == before})
         inputs[cid] = text
+    # hand-built entries whose values are empty or end in blanks (reachable with unparse_stack=[] or after a middleware):
+    # the line is indent, key, padding, ' = ', value - the value exactly as it is
+    for vc in (-1, 0, 9):
+        for tc in (False, True):
+            cid = len(cases)
+            lib = bib.Library([M.Entry("article", "k", [M.Field("note", ""), M.Field("t", "x "), M.Field("u", "y\u00a0"), M.Field("w", " "),
+                                                         M.Field("last", "")]),
+                               M.Entry("misc", "nofields", []), M.Entry("book", "j", [M.Field("averyveryverylongfieldkeyindeed", "\t")])])
+            f = {"indent": "  ", "vc": vc, "sep": "\n", "tc": tc, "pfc": {"pre": "% failed ", "post": "", "n": True}}
+            fmt = build_fmt(bib, f)
+            before = fmt_state(fmt)
+            try:
+                out, raised = bib.writer.write(lib, fmt), False
+            except Exception as ex:  # noqa
+                out, raised = f"{type(ex).__name__}: {ex}", True
+            cases.append({"id": cid, "lib": project(lib, M), "fmt": f, "out": out, "raised": raised, "may_raise": False,
+                          "fmt_unchanged": fmt_state(fmt) == before})
+            inputs[cid] = "<hand-built entries with empty values and values ending in blanks>"
     # writes that may raise: a non-string field value (e.g. an int month) handed to the bare writer, or a warning template
     # that str.format rejects - whatever happens, the format object is left as it was
     for vc in ("auto", 0, 7):
